@@ -44,9 +44,9 @@ TEXT.update({
          "deterministic simulation: reference ledger for carry / notional / additive index + oracle wrapper"),
  "C18": ("exploration", "3 (C18)", "every report of finished simulated backtests of every shape (nested, shared tickers, no trades, shorts, spreads) recomputed from the node histories; costless runs are replayed: get_transactions() fed to ReplayTransactions must reproduce positions and values.",
          "deterministic simulation: recomputation over finished histories + transaction-log replay"),
- "C19": ("exploration", "3 (C19)", "trees assembled through every constructor path are checked structurally and run by the real Backtest; membership change is the fault: a twin with every string / lazy child constructed up front must give the same histories (1e-10), a spy checks universe scoping inside running strategies, settings pushed from the top must reach nodes created mid-run (lazily created securities and sub-strategies spawned by a running stack); two algos that enumerate existing children are known findings.",
+ "C19": ("exploration", "3 (C19)", "trees assembled through every constructor path (node objects reused as templates included) are checked structurally and run by the real Backtest; membership change is the fault: a twin with every string / lazy child constructed up front must give the same histories (1e-10), a spy checks universe scoping inside running strategies, settings pushed from the top must reach nodes created mid-run (lazily created securities and sub-strategies spawned by a running stack); two algos that enumerate existing children are known findings.",
          "deterministic simulation: lazy-child membership fault, lazy vs eager twin runs"),
- "C20": ("exploration", "3 (C20)", "FI trees with seeded unit-risk tables, multipliers, UpdateRisk histories, square / pseudo-inverse hedges and close / roll tables whose dates are timers on the simulated clock (falling between ticks, prices absent after maturity): spies compare node.risk(s) with unit x position x multiplier summed over the tree, hedged measures with zero / the normal equations, positions with the tables, SelectActive with closed / rolled sets.",
+ "C20": ("exploration", "3 (C20)", "FI trees with seeded unit-risk tables, multipliers, UpdateRisk histories, square / pseudo-inverse hedges (also from a hedge strategy separate from the book, strategy=) and close / roll tables whose dates are timers on the simulated clock (falling between ticks, prices absent after maturity): spies compare node.risk(s) with unit x position x multiplier summed over the tree, hedged measures with zero / the normal equations, positions with the tables, SelectActive with closed / rolled sets.",
          "deterministic simulation: timers on the simulated clock, once-only effects and tree aggregation checked by spies"),
 })
 NOTE = "trusted base: the reference model / oracle code under /verif/sim, pandas/numpy/ffn as installed, the commission and feed generators; a clean batch is evidence for the sampled schedules and inputs, not proof"
